@@ -5,7 +5,7 @@ Require Import Norad.Proofs.GlifParseP Norad.Proofs.GlifEncodeP Norad.Proofs.Gli
 Require Norad.Model.Num Norad.Proofs.NumP.
 Require Import Norad.Model.FontRT Norad.Model.FontRealInfo Norad.Model.FontReal Norad.Model.FontRealPlist
                Norad.Model.FontRealFiles.
-Require Import Norad.Proofs.FontRTP Norad.Proofs.PlistNfP Norad.Proofs.FontRealPlistP.
+Require Import Norad.Proofs.FontRTP Norad.Proofs.PlistNfP Norad.Proofs.FontRealPlistP Norad.Proofs.PlistReadP.
 Open Scope N_scope.
 
 (** ** [BTreeMap<Name, V>] as a dictionary *)
@@ -57,6 +57,18 @@ Proof.
     clear -E H. induction E as [|x e xs l Hx F IH]; constructor; [|exact IH].
     destruct (name_valid (fst x)) eqn:En; [|discriminate].
     destruct (g (snd x)) as [y|] eqn:Eg; [|discriminate]. inversion Hx; subst e. simpl. split; [exact En|eapply H; eauto].
+Qed.
+(** what the reader of a map guarantees whatever the values are: BTreeMap order, valid names *)
+Lemma map_struct : forall v m, pv_map g v = Some m ->
+  ssorted m /\ Forall (fun e => name_valid (fst e) = true /\ exists p, g p = Some (snd e)) m.
+Proof.
+  intros v m Hm. destruct v; try discriminate. simpl in Hm.
+  destruct (omapM _ d) as [l0|] eqn:E; [|discriminate]. inversion Hm; subst m. clear Hm. split.
+  - apply fold_bt_sorted_any. exact I.
+  - apply fold_bt_forall; [|constructor]. apply omapM_Forall2 in E.
+    clear -E. induction E as [|x e xs l Hx F IH]; constructor; [|exact IH].
+    destruct (name_valid (fst x)) eqn:En; [|discriminate].
+    destruct (g (snd x)) as [y|] eqn:Eg; [|discriminate]. inversion Hx; subst e. simpl. split; [exact En|eauto].
 Qed.
 End Maps.
 
@@ -265,6 +277,60 @@ Proof.
   intros m Hm. apply (map_rt _ _ (kn_wf of_bits) kn_rt m Hm).
 Qed.
 
+(** ** what the non-closed readers return lies in the writers' domains but for the numbers *)
+Lemma good_value_wf : forall v, pv_good 0 v = true -> wf_pv_real v.
+Proof. intros v H. unfold wf_pv_real. rewrite (nf_sort 0 v H). apply pv_good_sorted. exact H. Qed.
+Lemma good_dict_wf : forall d, pv_good 0 (PDict d) = true -> wf_lib d.
+Proof.
+  intros d H k v Hk. apply good_value_wf. cbn [pv_good] in H. apply andb_true_iff in H. destruct H as [_ H].
+  rewrite forallb_forall in H. specialize (H _ (alookup_some_in _ _ _ Hk)). simpl in H. exact H.
+Qed.
+Lemma lib_decoded : forall n d, plist_value pf n = Some (PDict d) -> reals_finite (PDict d) = true -> wf_lib d.
+Proof. intros n d H R. apply good_dict_wf. eapply pv_of_good; eauto. Qed.
+
+Lemma parse_color_val_ok : forall s c, parse_color pf s = Some c -> color_val_ok c = true.
+Proof.
+  intros s c H. unfold parse_color in H.
+  destruct (split_on 44 s) as [|a [|b [|c0 [|d [|e r]]]]]; try discriminate.
+  destruct (pf a) as [x1|]; [|discriminate]. destruct (pf b) as [x2|]; [|discriminate].
+  destruct (pf c0) as [x3|]; [|discriminate]. destruct (pf d) as [x4|]; [|discriminate].
+  destruct (unit_range x1 && unit_range x2 && unit_range x3 && unit_range x4) eqn:E; [|discriminate].
+  inversion H; subst. exact E.
+Qed.
+Lemma li_decoded : forall n c ol, obind (plist_value pf n) (pv_li pf) = Some (c, ol) ->
+  (forall x, c = Some x -> color_fixed pf ff3 x) ->
+  (forall l, ol = Some l -> reals_finite (PDict l) = true) -> wf_li pf ff3 (c, ol).
+Proof.
+  intros n c ol H Hc Hl. destruct (plist_value pf n) as [v|] eqn:Ev; [|discriminate]. simpl in H.
+  pose proof (pv_of_good_nr pf n v Ev) as G. destruct v; try discriminate. unfold pv_li in H.
+  assert (GL : forall l, alookup k_lib d = Some (PDict l) -> reals_finite (PDict l) = true -> wf_lib l).
+  { intros l El R. apply good_dict_wf. apply good_split; [|exact R].
+    cbn [good_nr] in G. apply andb_true_iff in G. destruct G as [_ G]. rewrite forallb_forall in G.
+    exact (G _ (alookup_some_in _ _ _ El)). }
+  destruct (alookup k_color d) as [[s| | | | | | |]|] eqn:Ec; try discriminate.
+  - destruct (parse_color pf s) as [x|] eqn:Ep; [|discriminate]. simpl in H.
+    destruct (alookup k_lib d) as [[| | | | | | |l]|] eqn:El; try discriminate; inversion H; subst; split; simpl.
+    + intros x0 E. inversion E; subst. split; [eapply parse_color_val_ok; eauto|apply Hc; reflexivity].
+    + intros l0 E. inversion E; subst. apply GL; [reflexivity|apply Hl; reflexivity].
+    + intros x0 E. inversion E; subst. split; [eapply parse_color_val_ok; eauto|apply Hc; reflexivity].
+    + discriminate.
+  - destruct (alookup k_lib d) as [[| | | | | | |l]|] eqn:El; try discriminate; inversion H; subst; split; simpl.
+    + discriminate.
+    + intros l0 E. inversion E; subst. apply GL; [reflexivity|apply Hl; reflexivity].
+    + discriminate.
+    + discriminate.
+Qed.
+
+Lemma kerning_decoded : forall v k, pv_kerning to_bits v = Some k ->
+  Forall (fun e => Forall (fun p => kn_wf of_bits (snd p)) (snd e)) k -> wf_kerning of_bits k.
+Proof.
+  intros v k H Hn. destruct (map_struct _ v k H) as [Hs Hf]. split; [exact Hs|].
+  rewrite Forall_forall in *. intros e He. destruct (Hf e He) as [H1 [p Hp]]. split; [exact H1|].
+  destruct (map_struct _ p (snd e) Hp) as [Hs2 Hf2]. split; [exact Hs2|].
+  rewrite Forall_forall in *. intros q Hq. destruct (Hf2 q Hq) as [H2 _]. split; [exact H2|].
+  specialize (Hn e He). rewrite Forall_forall in Hn. exact (Hn q Hq).
+Qed.
+
 (** ** all files *)
 Local Notation AF := (all_files pf ff ff3 fi to_bits of_bits lw).
 
@@ -364,6 +430,28 @@ Proof.
   apply fixed_point_real_at; [exact L1|exact all_files_lawful|].
   destruct L1 as (A & B & _ & D). apply all_files_closed_base; assumption.
 Qed.
+Lemma input_numbers_domain : forall t : tree AS,
+  input_numbers_ok pf ff ff3 fi fh to_bits of_bits lw t -> files_in_domain pf ff ff3 fi fh AF t.
+Proof.
+  intros t (N1 & N2 & N3). split; [|split].
+  - intros c d Ht Hd. simpl in Hd. destruct (plist_value pf c) as [v|] eqn:Ev; [|discriminate]. simpl in Hd.
+    destruct v; try discriminate. inversion Hd; subst d0. eapply lib_decoded; [exact Ev|]. eapply N1; eauto.
+  - intros c k Ht Hd. simpl in Hd. pose proof (N2 c k Ht Hd) as Hn.
+    destruct (plist_value pf c) as [v|]; [|discriminate]. simpl in Hd. eapply kerning_decoded; eauto.
+  - intros dn dir c [oc ol] Hl Hi Hd. simpl in Hd. destruct (N3 dn dir c oc ol Hl Hi Hd) as [C1 C2].
+    eapply li_decoded; eauto.
+Qed.
+
+Theorem fixed_point_all_files_numbers : forall o (t : tree AS) (f : font AS) mc m,
+  load AS t = Ok f -> t_meta AS t = Some mc -> dec (P_meta AS) mc = Some m -> m_version m = 3 ->
+  input_numbers_ok pf ff ff3 fi fh to_bits of_bits lw t ->
+  Forall (fun l => Forall (fun e : str * str * glyph => glyph_rt_domain pf ff3 (snd e)) (l_glyphs l)) (f_layers AS f) ->
+  exists t', save AS o f = Ok t' /\ exists f', load AS t' = Ok f' /\ font_equiv AS f f'.
+Proof.
+  intros o t f mc m H Hm1 Hm2 Hv HN HD.
+  exact (fixed_point_all_files o t f mc m H Hm1 Hm2 Hv (input_numbers_domain t HN) HD).
+Qed.
+
 End AllFiles.
 
 (** ** the domains are inhabited; the kerning number writer on examples *)
